@@ -57,6 +57,22 @@ var schemes = []string{"s1", "s2", "s3"}
 func lowSchema() M  { return M{"type": "integer", "maximum": 10.0} }
 func highSchema() M { return M{"type": "integer", "minimum": 50.0} }
 
+// a requirement entry is "scheme" (scope "scope:<scheme>") or "scheme/scope"; the entry is also the
+// key under which Case.Auth says whether the callback accepts that scheme with that scope
+func splitEntry(e string) (scheme, scope string) {
+	if i := strings.Index(e, "/"); i >= 0 {
+		return e[:i], e[i+1:]
+	}
+	return e, "scope:" + e
+}
+
+func entryOf(scheme string, scopes []string) string {
+	if len(scopes) == 1 && scopes[0] != "scope:"+scheme {
+		return scheme + "/" + scopes[0]
+	}
+	return scheme
+}
+
 func secJSON(l *[][]string) any {
 	if l == nil {
 		return nil
@@ -64,8 +80,9 @@ func secJSON(l *[][]string) any {
 	out := []any{}
 	for _, r := range *l {
 		req := M{}
-		for _, s := range r {
-			req[s] = []any{"scope:" + s}
+		for _, e := range r {
+			scheme, scope := splitEntry(e)
+			req[scheme] = []any{scope}
 		}
 		out = append(out, req)
 	}
@@ -192,7 +209,7 @@ func check(c Case) (o h.Outcome) {
 	if !c.NoAuth {
 		opts.AuthenticationFunc = func(_ context.Context, in *openapi3filter.AuthenticationInput) error {
 			calls = append(calls, call{in.SecuritySchemeName, in.Scopes})
-			if c.Auth[in.SecuritySchemeName] {
+			if c.Auth[entryOf(in.SecuritySchemeName, in.Scopes)] {
 				return nil
 			}
 			return errors.New("denied " + in.SecuritySchemeName)
@@ -215,7 +232,8 @@ func check(c Case) (o h.Outcome) {
 		for _, r := range *eff {
 			all := true
 			for _, s := range r {
-				known := s == "s1" || s == "s2" || s == "s3"
+				scheme, _ := splitEntry(s)
+				known := scheme == "s1" || scheme == "s2" || scheme == "s3"
 				if c.NoAuth || !known || !c.Auth[s] {
 					all = false
 				}
@@ -316,10 +334,12 @@ func check(c Case) (o h.Outcome) {
 			return
 		}
 	} else {
-		allowed := map[string]bool{}
+		allowed, allowedScope := map[string]bool{}, map[string]bool{}
 		for _, r := range *eff {
 			for _, s := range r {
-				allowed[s] = true
+				scheme, scope := splitEntry(s)
+				allowed[scheme] = true
+				allowedScope[scheme+"\x00"+scope] = true
 			}
 		}
 		for _, cl := range calls {
@@ -327,8 +347,8 @@ func check(c Case) (o h.Outcome) {
 				o.Fail("auth-called-for-foreign-scheme", "the callback was called for scheme %q, which is not in the effective requirement list %v", cl.Scheme, *eff)
 				return
 			}
-			if len(cl.Scopes) != 1 || cl.Scopes[0] != "scope:"+cl.Scheme {
-				o.Fail("auth-scopes", "the callback got scopes %v for scheme %q", cl.Scopes, cl.Scheme)
+			if len(cl.Scopes) != 1 || !allowedScope[cl.Scheme+"\x00"+cl.Scopes[0]] {
+				o.Fail("auth-scopes", "the callback got scopes %v for scheme %q; effective requirements %v", cl.Scopes, cl.Scheme, *eff)
 				return
 			}
 		}
@@ -407,7 +427,9 @@ func dump(c Case) string { b, _ := json.Marshal(c); return string(b) }
 
 func secLists() []*[][]string {
 	mk := func(l [][]string) *[][]string { return &l }
-	return []*[][]string{nil, mk([][]string{}), mk([][]string{{}}), mk([][]string{{"s1"}}), mk([][]string{{"s1", "s2"}}), mk([][]string{{"s1"}, {"s2"}}), mk([][]string{{"s2"}, {}}), mk([][]string{{"s1", "s2"}, {"s3"}})}
+	return []*[][]string{nil, mk([][]string{}), mk([][]string{{}}), mk([][]string{{"s1"}}), mk([][]string{{"s1", "s2"}}), mk([][]string{{"s1"}, {"s2"}}), mk([][]string{{"s2"}, {}}), mk([][]string{{"s1", "s2"}, {"s3"}}),
+		// the same scheme under different scopes in alternative requirements: the callback decides per scope
+		mk([][]string{{"s1/admin"}, {"s1/read"}}), mk([][]string{{"s1/read", "s2"}, {"s1/admin"}}), mk([][]string{{"s1/admin", "s2"}, {"s1/read", "s3"}, {"s2"}})}
 }
 
 func enumerate(shard, nshards int, yield func(Case)) {
@@ -422,8 +444,8 @@ func enumerate(shard, nshards int, yield func(Case)) {
 	// security truth table
 	for _, op := range lists {
 		for _, dc := range lists {
-			for mask := 0; mask < 8; mask++ {
-				auth := map[string]bool{"s1": mask&1 != 0, "s2": mask&2 != 0, "s3": mask&4 != 0}
+			for mask := 0; mask < 32; mask++ {
+				auth := map[string]bool{"s1": mask&1 != 0, "s2": mask&2 != 0, "s3": mask&4 != 0, "s1/admin": mask&8 != 0, "s1/read": mask&16 != 0}
 				for _, multi := range []int{0, 1} {
 					emit(Case{Body: "none", OpSec: op, DocSec: dc, Auth: auth, Opts: multi})
 				}
@@ -465,7 +487,7 @@ func gen(t *rapid.T) Case {
 	c.OpSec = lists[rapid.IntRange(0, len(lists)-1).Draw(t, "opsec")]
 	c.DocSec = lists[rapid.IntRange(0, len(lists)-1).Draw(t, "docsec")]
 	c.Auth = map[string]bool{}
-	for _, s := range schemes {
+	for _, s := range append(append([]string{}, schemes...), "s1/admin", "s1/read") {
 		c.Auth[s] = rapid.Bool().Draw(t, "auth:"+s)
 	}
 	c.Opts = rapid.IntRange(0, 7).Draw(t, "opts")
